@@ -86,7 +86,8 @@ fn check_value(v: &MVal, sample: bool) -> CaseResult {
     };
     let (text, back, text2) = match &r {
         MVal::Arr(x) if x.len() == 3 => (&x[0], &x[1], &x[2]),
-        _ => unreachable!(),
+        // the printed text reads back as several values
+        other => return Err(CaseFail::new("roundtrip-filters", format!("tojson|fromjson gave several values: {}", other.show()), case())),
     };
     if !indist(v, back) {
         return Err(CaseFail::new("roundtrip-filters", format!("tojson gave {} and fromjson read it back as {} ({:?})", text.show(), back.show(), back), case()));
@@ -664,6 +665,29 @@ pub fn run(mut rep: Report) -> ! {
             }
             let v = if i % 2 == 0 { n } else { MVal::Obj(vec![(n.clone(), MVal::Arr(vec![n]))]) };
             check_value(&v, s)
+        });
+    }
+    // values that jaq itself computes from decimal literals without leaving the decimal representation
+    // (negation): whatever text jaq gives them, they are values and must survive print-then-parse
+    {
+        let computed: Vec<MVal> = nums
+            .iter()
+            .filter(|n| matches!(n, MVal::Dec(d) if matches!(jaq_json::read::parse_single(d.as_bytes()).map(|v| MVal::from_val(&v)), Ok(MVal::Dec(_)))))
+            .filter_map(|d| jq::eval1("-$x", &[("x", d.to_val())], Val::Null).ok())
+            .map(|n| MVal::from_val(&n))
+            .collect();
+        let computed = &computed;
+        rep.exhaustive("negated-decimal-literals", computed.len() as u64 * 2, move |i, s| {
+            let n = computed[(i / 2) as usize].clone();
+            // (known finding: the reader accepts digits after a leading zero - 007.50 - but not after "-0")
+            let leading_zero = matches!(&n, MVal::Dec(d) if { let t = d.trim_start_matches(['-', '+']); t.len() > 1 && t.starts_with('0') && t.as_bytes()[1].is_ascii_digit() });
+            let v = if i % 2 == 0 { n } else { MVal::Arr(vec![n.clone(), MVal::Obj(vec![(tstr("k"), n)])]) };
+            check_value(&v, s).map_err(|mut f| {
+                if leading_zero {
+                    f.sig = "negated-leading-zero-decimal-does-not-read-back".into();
+                }
+                f
+            })
         });
     }
     let atoms = vec![MVal::Null, int(0), MVal::Float(-0.0), MVal::Dec("1.10".into()), tstr("a\"\n"), MVal::BStr(b"\xff".to_vec()), MVal::Float(f64::NAN)];
